@@ -186,7 +186,15 @@ fn gen_filter15(rng: &mut Rng) -> Fx {
         2 => Fx::F(F::Not(None)),
         3 => Fx::F(F::And(vec![])),
         4 => Fx::F(F::Or(vec![])),
-        5 => Fx::F(F::In { key: "k".into(), values: vec![] }),
+        5 => match rng.below(6) {
+            0 => Fx::F(F::In { key: "k".into(), values: vec![] }),
+            // composite filters whose operands are messages with the oneof unset
+            1 => Fx::F(F::Or(vec![F::NoFilter])),
+            2 => Fx::F(F::Or(vec![F::NoFilter, F::NoFilter])),
+            3 => Fx::F(F::And(vec![F::NoFilter])),
+            4 => Fx::F(F::Not(Some(Box::new(F::NoFilter)))),
+            _ => Fx::F(F::And(vec![F::Exact { key: "k".into(), value: "5".into() }, F::Or(vec![F::Or(vec![F::NoFilter])])])),
+        },
         6 => Fx::Nest { depth: *rng.pick(&[20u32, 49, 60, 90]), kind: rng.below(3) as u8, leaf: ex },
         7 => Fx::Nest { depth: *rng.pick(&[99u32, 100, 101, 150]), kind: rng.below(3) as u8, leaf: ex },
         8 => Fx::Nest { depth: *rng.pick(&[1000u32, 5000]), kind: rng.below(3) as u8, leaf: ex },
@@ -645,6 +653,17 @@ fn judge_call(c: &Cfg15, i: usize, r: &Rpc, resp: &Resp, before: &Census, after:
                     _ => Some(prob("valid_request_refused", i, format!("BulkSearch of {} valid queries (step {}) answered code {} {:?} with {:?}", ss.len(), i, resp.code, resp.message, resp.body), &[("rpc", kind)])),
                 }
             } else {
+                // borderline items: the stream may be answered with an error status, but an OK status means every
+                // request of the stream got its response
+                if resp.code == 0 {
+                    let n = match &resp.body {
+                        Body::Search(v) => v.len(),
+                        _ => 0,
+                    };
+                    if n != ss.len() {
+                        return Some(prob("no_status_delivered", i, format!("BulkSearch of {} requests (step {}) ended with status OK after {} responses: {} requests were never answered", ss.len(), i, n, ss.len() - n.min(ss.len())), &[("rpc", kind), ("what", "stream_items_unanswered")]));
+                    }
+                }
                 unchanged("read_only")
             }
         }
